@@ -344,3 +344,32 @@ prop("C06",
                    "congruence of kind/parameters/children values"],
      assumptions=["exact arithmetic"],
      unverified_surroundings=[])
+
+prop("C12",
+     level="proof",
+     level_text=(
+         "Deductive proof per function: trace_call (every mixture of up to 3 "
+         "positional/keyword arguments x the three return conventions) builds "
+         "a definition whose parameter set, placeholder names and binding "
+         "names coincide with each binding being the argument itself; the "
+         "placeholder substitutor never recurses into a substitution (no "
+         "capture); the inliner replaces parameters by bindings, passes the "
+         "result through its own recursion, keeps names and tags; one clone "
+         "(name space) per function body."),
+     level_note=(
+         "Value preservation of inlining follows from these contracts plus "
+         "the copy-mapper contracts (C05) by congruence; arguments are opaque "
+         "arrays, bodies are small real expressions over the parameter "
+         "placeholders. Nesting depth and repeated call sites follow by the "
+         "induction over the call structure (paper). clone_for_callee cache "
+         "separation is contracts/c13_caches.py."),
+     technique="contract-based deductive verification: symbolic execution of "
+               "the real outlining/inlining source with recursion replaced by "
+               "its contract",
+     design_ref="DESIGN.md §6 C12",
+     explanation="see contracts/c12_calls.py",
+     structural_bound="n+m <= 3 arguments; 2 parameters / 2 results in the "
+                      "inliner instances",
+     trusted_base=[], assumptions=[],
+     unverified_surroundings=["deduplicate() after inlining (C05/C13 "
+                              "contracts)"])
